@@ -131,7 +131,10 @@ theorem step_ginv (st st' : St) (op : Op) (hI : GInv st) (h : step st op = some 
       simp only [pcOk, hpn] at hl
       have e1 : ∀ s : St, s.log = st.log → tr s = tr st := fun s h => by simp [tr, h]
       refine ⟨⟨?_, ?_, by simp [emit]⟩, rfl⟩
-      · rw [emit_tr, show tr _ = tr st from e1 _ rfl, okFrom_snoc, hI.chain]
+      · have hc := hI.chain
+        rw [emit_tr]
+        simp only [tr] at hc hl ⊢
+        rw [okFrom_snoc, hc]
         rcases hl with hl | hl <;> simp [hl, startOk]
       · simp only [pcOk, emit_pc]
         rw [emit_tr, lastOf_snoc]
